@@ -545,7 +545,7 @@ theorem runPath_sound {T : List Fn} : ∀ (n : Nat) (p : Prog) (cs : List Bool) 
             simp only [Option.some.injEq, Prod.mk.injEq] at h
             obtain ⟨rfl, rfl, _⟩ := h
             refine .call hf (ih _ _ _ _ _ hr) ?_
-            intro ho; subst ho; trace_state; exact hnb _ rfl
+            intro ho; subst ho; exact hnb rfl
           · simp at h
     | seq p q =>
       simp only [runPath] at h
